@@ -2,7 +2,8 @@ import copy
 
 from mindsdb_sql import Latest, OrderBy, NullConstant
 from mindsdb_sql.exceptions import PlanningException
-from mindsdb_sql.parser.ast import (Select, Identifier, BetweenOperation, Join, Star, BinaryOperation, Constant)
+from mindsdb_sql.parser.ast import (Select, Identifier, BetweenOperation, Join, Star, BinaryOperation, Constant,
+                                    NativeQuery)
 from mindsdb_sql.planner import utils
 from mindsdb_sql.planner.steps import (JoinStep, LimitOffsetStep, MultipleSteps, MapReduceStep,
                                        ApplyTimeseriesPredictorStep)
@@ -132,6 +133,12 @@ class PlanJoinTSPredictorQuery:
         # dbt query?
         if isinstance(join_left, Select) and isinstance(join_left.from_table, Identifier):
             query, join_left = self.adapt_dbt_query(query, integration)
+
+        if not isinstance(join_left, (Identifier, NativeQuery)):
+            # a join, a sub-select that is not a plain select from a table, injected data
+            raise PlanningException(
+                f'Time series predictor can be joined only with a table or with a select from a table, '
+                f'found instead: {join_left}')
 
         predictor_namespace, predictor = self.planner.get_predictor_namespace_and_name_from_identifier(join_right)
         table = join_left
